@@ -7,6 +7,10 @@ import Tickit.Driver.Sgr
       [H<w>k | H<w>m<type>@<line>,<col>]* <result> | W … | P … | S … | B … | T …        (`end`: … leak=0|1)
   or `CRASH exit=1` (sanitizer abort) / `CRASH signal=6` (abort()) for the rest of the history.
 
+  The output operations (tbuf, tprint, tgoto, tflush, tcaps, tsetpen, tchpen: `Model/LifeOut.lean`) answer
+      ok out=<hex of each chunk handed to the output function, comma separated | -> [pen=<cached pen>] | W …
+  with the pen written as in engine `sgr` (`Driver/Sgr.lean`: `parsePen`, `showPen`, reused).
+
   The model runs with the configuration extracted from the source tree (`Gen.Life`): it mirrors the tree it is
   compared with, before or after the repairs.
 
